@@ -494,3 +494,10 @@ pub fn install_abort_reporter() {
         }
     }
 }
+
+/// Factor applied to wall-clock bounds (VH_TIME_SCALE, set by the orchestrator for the
+/// sanitizer builds, which run 4-7 times slower than the release build).
+pub fn time_scale() -> u64 {
+    static SCALE: std::sync::OnceLock<u64> = std::sync::OnceLock::new();
+    *SCALE.get_or_init(|| std::env::var("VH_TIME_SCALE").ok().and_then(|s| s.parse().ok()).filter(|v| *v >= 1 && *v <= 20).unwrap_or(1))
+}
